@@ -1,7 +1,8 @@
 (* C06 — whatever the library signs it also verifies.  For any signature scheme whose
    correctness law holds (an explicit premise, not an axiom). *)
 From Model Require Import Bytes Prim Tables Cert KAC Mapping Sig LS RI Crypto.
-From Proofs Require Import CryptoProofs SignRT ElsChain.
+From Proofs Require Import CryptoProofs SignRT ElsChain SpecRA SpecRI.
+From Spec Require Import Wire SpecTables.
 Open Scope Z_scope.
 
 Theorem C06_encrypted_leaseset_sign_verify :
@@ -63,3 +64,26 @@ Proof.
   - exact (els_sign_verify verify sign pub OK l sk Ho Hk Hl Ht).
 Qed.
 Print Assumptions C06_encrypted_leaseset_verifies_after_wire.
+
+(* RouterInfo, after the wire: identity block with an Ed25519 key certificate (any admissible
+   encryption type, any padding, any excess certificate payload), any published time, up to 255
+   addresses with any options, any router options, trailing signature = the identity key's
+   signature over everything before it (what NewRouterInfo assembles): the bytes are accepted by
+   ReadRouterInfo with an empty remainder, the parsed value serialises to the same bytes, and
+   VerifySignature succeeds on it — for any scheme with the correctness law and 64-byte signatures *)
+Theorem C06_router_info_verifies_after_wire :
+  forall verify (sign : bytes -> bytes -> bytes) (pubkey : bytes -> bytes),
+  (forall sk m, verify ALG_ED25519 (pubkey sk) m (sign sk m) = true) -> (forall sk m, length (sign sk m) = 64%nat) ->
+  forall (c : N) (cl : nat) pub pad extra published addrs opts sk,
+    In c [0; 4; 5; 6; 7]%N -> spec_crypto_len (Z.of_N c) = Some (Z.of_nat cl) ->
+    length pub = cl -> length (pubkey sk) = 32%nat -> length pad = (384 - cl - 32)%nat ->
+    (N.of_nat (length extra) < 65532)%N -> ri_crypto_denied (Z.of_N c) = false ->
+    (published < 2 ^ 64)%N -> (length addrs <= 255)%nat -> Forall ra_tuple_ok addrs -> opts_ok opts ->
+    let ident := spec_identity pub pad (pubkey sk) (spec_keycert 7 c extra) in
+    let unsigned := spec_router_info ident published addrs opts [] in
+    let b := spec_router_info ident published addrs opts (sign sk unsigned) in
+    wf b ->
+    exists i, read_router_info b = Ok (i, []) /\ router_info_bytes i = Ok b /\
+              verdict verify (ri_verify_queries i) = true.
+Proof. exact router_info_verifies_after_wire. Qed.
+Print Assumptions C06_router_info_verifies_after_wire.
